@@ -213,7 +213,8 @@ impl Replaced {
 pub struct LexerHelper;
 /// length of the text the helper was built from
 pub uninterp spec fn lh_len(lh: &LexerHelper) -> int;
-// assumed contract: LexerHelper::get_line is under a BOUNDED Kani contract (unit b_lexer_get_line); get_err_pos adds 1 to the line number
+// stub contract, DISCHARGED in unit `lexer` (contracts/verus/lexer.rs: the real get_err_pos and LexerHelper::get_line, any number of newlines,
+// err_line := newlines before pos + 1, lh_len := input_len); what stays assumed is LexerHelper::new's result (bounded Kani unit b_lexer_new)
 /// (1-based) number of the line of the text that contains position `pos`
 pub uninterp spec fn err_line(l: &LexerHelper, pos: int) -> int;
 #[verifier::external_body]
